@@ -265,3 +265,20 @@ PROPERTIES["C10"] = {
                                          "the authority written in another bech32 spelling is a don't-care"],
     "tests": [{"test": "TestC10Authority", "quick": 4000, "thorough": 300000}],
 }
+
+PROPERTIES["C13"] = {
+    "level": "exploration",
+    "rule": "rapid draws ledgers of 0-60 entries (all source/destination protocols, counterparties incl. ones with ':' and numeric strings "
+            "of different lengths, 5 denoms, amounts to 2^256-1) imported through InitGenesis, optionally followed by real transfers that create "
+            "and UPDATE entries in place, and 2-6 page requests (limit 0..N+2, offset, reverse, count_total). Oracle = the ledger itself: "
+            "direct lookups over the whole key pool return an entry iff the ledger has one (values equal) else NotFound; for every protocol "
+            "filter and both sides (by source / by destination), for amounts and counts, a walk following next_key until empty - forwards "
+            "and in reverse, for every drawn limit - visits exactly the matching set, each entry once, with equal values; reverse is the reverse "
+            "of forward; offset pages are the corresponding slice of the full walk; total (count_total) is the size of the matching set; key+offset "
+            "is refused. Non-trivial = a walk with a limit below the matching set (>= 3) while foreign entries exist; distinct by (ledger, request).",
+    "assumptions": COMMON_ASSUMPTIONS + ["listing order is not asserted beyond reverse being the reverse of forward and limits not changing it"],
+    "tests": [
+        {"test": "TestC13Queries", "quick": 400, "thorough": 30000},
+        {"test": "TestC13KnownReversePrefix", "kind": "plain", "quick": 1, "thorough": 1},
+    ],
+}
